@@ -49,6 +49,14 @@ pub struct C04Case {
     /// instead of at arbitrary files of the tree
     #[serde(default)]
     pub prefer_grouped: bool,
+    /// the same report is used twice: first by `link --soft` / `link` / `remove` (0, 1, 2) with default
+    /// options, then by the command of the case
+    #[serde(default)]
+    pub pre_op: Option<u8>,
+    /// the report comes from `group --transform cat` (content-preserving; switches the size check of the
+    /// dedupe commands off through the header)
+    #[serde(default)]
+    pub transform_cat: bool,
 }
 
 const TZS: [&str; 6] = ["UTC", "JST-9", "PST8", "XXX-5:30", "NST3:30", "AEST-10AEDT,M10.1.0,M4.1.0/3"];
@@ -81,8 +89,8 @@ fn case_strategy() -> BoxedStrategy<C04Case> {
         1 => Just(EditKind::Touch),
     ];
     let edit = (kind, 0u16..u16::MAX, prop::bool::weighted(0.6)).prop_map(|(kind, target, during_group)| Edit { kind, target, during_group });
-    (dcase_strategy(profile()), proptest::collection::vec(edit, 1..4), 0u16..u16::MAX, 0u8..6, 0u8..6, prop::bool::weighted(0.75))
-        .prop_map(|(mut d, edits, pause_sel, tz_group, tz_dedupe, prefer_grouped)| {
+    (dcase_strategy(profile()), proptest::collection::vec(edit, 1..4), 0u16..u16::MAX, 0u8..6, 0u8..6, prop::bool::weighted(0.75), prop::option::weighted(0.2, 0u8..3), prop::bool::weighted(0.15))
+        .prop_map(|(mut d, edits, pause_sel, tz_group, tz_dedupe, prefer_grouped, pre_op, transform_cat)| {
             for p in d.dopts.priority.iter_mut() {
                 if *p % 12 == 6 || *p % 12 == 7 {
                     *p = 0;
@@ -97,7 +105,10 @@ fn case_strategy() -> BoxedStrategy<C04Case> {
                 d.gopts.isolate = false;
                 d.dopts.isolate = false;
             }
-            C04Case { d, edits, pause_sel, tz_group, tz_dedupe, prefer_grouped }
+            if transform_cat {
+                d.gopts.transform = Some(Tr { op: TrOp::Cat, io: TrIo::Pipe });
+            }
+            C04Case { d, edits, pause_sel, tz_group, tz_dedupe, prefer_grouped, pre_op, transform_cat }
         })
         .boxed()
 }
@@ -417,8 +428,34 @@ fn judge(c: &C04Case, cd: &CaseDir, files: &[PathBuf], target: &PathBuf) -> Verd
     // (the directory outside the roots that holds the target of `0link` is part of the inventory)
     let ext_dir = cd.base.join("ext");
     let _ = std::fs::create_dir_all(&ext_dir);
-    let s1 = Snapshot::take(&[&tree, target, &ext_dir]);
     let canon_roots: Vec<PathBuf> = root_paths(&tree, c.d.roots).iter().map(|p| std::fs::canonicalize(p).unwrap_or(p.clone())).collect();
+    // the report may be used more than once: a first dedupe command with default options
+    if let Some(po) = c.pre_op {
+        let mut d2 = c.d.clone();
+        d2.op = [Op::SoftLink, Op::Link, Op::Remove][po as usize % 3].clone();
+        d2.dopts.priority = vec![];
+        d2.dopts.rf_over = None;
+        let (a0, _) = dedupe_args(&d2, files, &canon_roots, target, false);
+        let s0 = Snapshot::take(&[&tree, target, &ext_dir]);
+        let r0 = Run::fclones(cd).args(&a0).stdin(report_bytes.clone()).env("TZ", TZS[c.tz_dedupe as usize % 6]);
+        let c0 = r0.cmdline();
+        let o0 = r0.run();
+        let s0b = Snapshot::take(&[&tree, target, &ext_dir]);
+        if o0.timed_out {
+            return Verdict::Inconclusive("timeout".into());
+        }
+        let (i0, i1) = (s0.content_inventory(), s0b.content_inventory());
+        if let Some(lost) = i0.iter().find(|b| !i1.contains(*b)) {
+            return Verdict::Fail {
+                clause: "changed-data-destroyed".into(),
+                detail: format!("{}\nedits: {}\n{} < report   (first use of the report)\na content of {} bytes that existed just before this command no longer exists\n{}", gcmd, applied.join("; "), c0, lost.len(), o0.brief()),
+                sig: vec![format!("op-{}", d2.op.name()), "first-use-of-the-report".into()],
+            };
+        }
+        applied.push(format!("[then] {} < report", c0));
+        std::thread::sleep(Duration::from_millis(30));
+    }
+    let s1 = Snapshot::take(&[&tree, target, &ext_dir]);
     let (args, _) = dedupe_args(&c.d, files, &canon_roots, target, false);
     let run = Run::fclones(cd).args(&args).stdin(report_bytes).env("TZ", TZS[c.tz_dedupe as usize % 6]);
     let dcmd = format!("TZ={} {} < report", TZS[c.tz_dedupe as usize % 6], run.cmdline());
@@ -467,6 +504,12 @@ fn judge(c: &C04Case, cd: &CaseDir, files: &[PathBuf], target: &PathBuf) -> Verd
     let nontrivial = paused
         && c.edits.iter().any(|e| e.during_group && e.kind == EditKind::RewriteSameLen && !edit_files.is_empty() && in_report(&edit_files[pick(e.target, edit_files.len())]));
     let mut classes = sig.clone();
+    if c.pre_op.is_some() {
+        classes.push("report-used-twice".into());
+    }
+    if c.transform_cat {
+        classes.push("report-from-transform-cat".into());
+    }
     classes.push(format!("tz-{}-{}", c.tz_group % 6, c.tz_dedupe % 6));
     for e in &c.edits {
         classes.push(format!("edit-{:?}", e.kind));
@@ -488,7 +531,7 @@ pub fn check(tier: Tier) -> i32 {
     cleanup_process_scratch();
     ctx.finish(
         "exploration",
-        "proptest-generated histories: a scenario tree (5-12 files, several groups, hard links) ; `group --threads 1` paused by the LD_PRELOAD interposer at its k-th open-for-read of a tree file (k drawn from 1..K+1 where K comes from a recording run; covers 'before the first read of a file', 'between its prefix and content reads', 'after all hashing but before the report is written') ; 1-3 edits (rewrite same length - also through a symlink that is itself a reported member (-S), incl. one whose target lies outside every scanned root -, rewrite other length, append, truncate, delete, delete+recreate, replace by directory, replace by symlink, touch) applied by ordinary writes either during the pause or after `group` exited, aimed - in three quarters of the cases - at members of the groups a recording run reported, with the pause point biased towards the last third of the opens ; one of remove/link/link --soft/move/dedupe with priorities, -n, isolate ; group and dedupe run under independently drawn time zones (UTC, +9, -8, +5:30, -3:30, DST rule). Oracle (inventories just before and after the dedupe run): every content that existed just before the dedupe run is still stored in a regular file, and every processed file's current content is retained in an untouched file (or under the move target). Non-trivial = a same-length rewrite of a reported group member applied while `group` was paused.",
+        "proptest-generated histories: a scenario tree (5-12 files, several groups, hard links) ; `group --threads 1` paused by the LD_PRELOAD interposer at its k-th open-for-read of a tree file (k drawn from 1..K+1 where K comes from a recording run; covers 'before the first read of a file', 'between its prefix and content reads', 'after all hashing but before the report is written') ; 1-3 edits (rewrite same length - also through a symlink that is itself a reported member (-S), incl. one whose target lies outside every scanned root -, rewrite other length, append, truncate, delete, delete+recreate, replace by directory, replace by symlink, touch) applied by ordinary writes either during the pause or after `group` exited, aimed - in three quarters of the cases - at members of the groups a recording run reported, with the pause point biased towards the last third of the opens ; in a fifth of the cases a first dedupe command (link --soft / link / remove, default options) on the same report ; one of remove/link/link --soft/move/dedupe with priorities, -n, isolate ; 15 % of the reports come from `group --transform cat` (size check off through the header) ; group and dedupe run under independently drawn time zones (UTC, +9, -8, +5:30, -3:30, DST rule). Oracle (inventories just before and after the dedupe run): every content that existed just before the dedupe run is still stored in a regular file, and every processed file's current content is retained in an untouched file (or under the move target). Non-trivial = a same-length rewrite of a reported group member applied while `group` was paused.",
         &["edits are kept >= 30 ms away from the instants fclones reads the clock (kernel mtimes are tick-granular)", "mtime-preserving replacement is outside the guarantee and not generated", "the pause granularity is a libc call, not an instruction"],
     )
 }
